@@ -254,7 +254,42 @@ def job(c):
     return res
 
 
+def accept_job(j):
+    """A well-formed program of another check's alphabet must build and initialise."""
+    program = j["program"]
+    res = {"ok": True, "outcome": "accept", "family": j.get("family", "")}
+    try:
+        built = dsl.build(program)
+        analysis.make_solver(built, {})
+    except Exception as e:
+        res["outcome"] = "reject"
+        res["exc"] = type(e).__name__
+        res["msg"] = str(e)[:120]
+        last = [d for d in program["decls"] if d["k"] == "new"][-1]
+        res["cls"] = last["cls"]
+        res["program"] = program
+    return res
+
+
+def alphabet_programs(tier):
+    from . import C02, C03, C04, C09, C10
+
+    seen, out = set(), []
+    for mod, name in ((C02, "C02"), (C03, "C03"), (C04, "C04"), (C09, "C09"), (C10, "C10")):
+        for j in mod.jobs(common.level(name, tier))[:: (3 if tier == "quick" else 1)]:
+            k = dsl.pkey(j["program"])
+            if k not in seen:
+                seen.add(k)
+                out.append({"program": j["program"], "family": name + ":" + j.get("family", "")})
+    return out
+
+
 def replay(inst):
+    if inst.get("expect") == "accept-program":
+        r = accept_job({"program": inst["program"]})
+        bad = r["outcome"] != "accept"
+        print(json.dumps({"violation": f"well-formed program rejected: {r.get('exc')}: {r.get('msg')}" if bad else None}))
+        return 1 if bad else 0
     r = job(inst["case"])
     bad = r.get("outcome") != inst["case"]["exp"] and inst["case"]["exp"] != "unspec"
     print(json.dumps({"violation": f"expected {inst['case']['exp']}, got {r.get('outcome')}" if bad else None, "exc": r.get("exc")}))
@@ -266,8 +301,15 @@ def confirm(inst):
     import sys
     import os
 
-    c = inst["case"]
-    inst["standalone"] = ('"""Stand-alone replay generated by /verif: this element must be ' + c["exp"] + 'ed at creation.\n"""\n'
+    if inst.get("expect") == "accept-program":
+        inst["standalone"] = ('"""Stand-alone replay generated by /verif: this well-formed problem must be accepted (it raised ' + str(inst.get("exc")) + ').\n"""\n'
+                              + dsl.gen_source(inst["program"]) + "ps.SchedulingSolver(problem=pb).initialize()\n")
+        c = None
+    else:
+        c = inst["case"]
+        inst["standalone"] = None
+    if c is not None:
+      inst["standalone"] = ('"""Stand-alone replay generated by /verif: this element must be ' + c["exp"] + 'ed at creation.\n"""\n'
                           + ("import processscheduler as ps\nimport z3\n" + "\n".join(l for l in dsl.gen_source(prog(4, c["ctx"] + c["test"]), header=False).splitlines() if not l.startswith("pb = "))
                              if c["no_problem"] else dsl.gen_source(prog(4, c["ctx"] + c["test"]))) + "\n")
     outs = []
@@ -319,6 +361,19 @@ def main(tier):
                 chk.violation(sig, {"case": case, "observed": r, "expect": "validation"})
         if len(chk.samples) < 6 and r.get("src"):
             chk.sample({"element": r["label"], "under_test": r["src"], "expected": r["exp"], "observed": r["outcome"]})
+    # every program of the schedule-space alphabets is well-formed by construction: it must be accepted as well
+    n_alpha = 0
+    for status, r in run.pmap(accept_job, alphabet_programs(tier), chunk=16):
+        if status == "err":
+            chk.error(r)
+            continue
+        n_alpha += 1
+        chk.add(programs=1, states=1, transitions=1, evaluations=1, traces_validated_against_impl=1)
+        if r["outcome"] != "accept":
+            chk.violation({"dir": "validation", "element": r["cls"], "expected": "accept", "got": "reject", "exc": r["exc"]},
+                          {"program": r["program"], "expect": "accept-program", "exc": r["exc"], "msg": r["msg"]})
+    chk.cov["alphabet_programs_accepted"] = n_alpha
+    n_exp += n_alpha
     chk.cov["distinct_nontrivial"] = n_exp
     chk.cov["distinct_outcomes"] = len(outcomes)
     return chk.finish(confirm=confirm, witness_runner=witness)
